@@ -16,6 +16,7 @@ OkWire(r) ==
   /\ PathDecodesTo(r.path, r.template, r.args)
   /\ QueryDecodesTo(r.query, r.pairs)
   /\ r.auth_header = AuthHeader(r.auth, r.send)
-Ok(r) == IF r.kind0 = "select" THEN OkSelect(r) ELSE OkWire(r)
+OkAuth(r) == r.auth_header = AuthHeader(r.auth, r.send)
+Ok(r) == IF r.kind0 = "select" THEN OkSelect(r) ELSE IF r.kind0 = "authtable" THEN OkAuth(r) ELSE OkWire(r)
 Check == Ok(Rec[i]) \/ PrintT(<<"MISMATCH", i>>)
 =============================================================================
